@@ -76,13 +76,54 @@ def nextKind : Kind → Kind
   | .pkind => .akind
   | .akind => .skind
 
-/-- the epilogue `if cn != nil { res.fullPath = cn.ppath; for i, name := range cn.pnames { … } }` -/
-def post (st : St) (h : Option Nat) : Out :=
+def hexVal (c : UInt8) : Option UInt8 :=
+  if 48 ≤ c ∧ c ≤ 57 then some (c - 48)
+  else if 97 ≤ c ∧ c ≤ 102 then some (c - 87)
+  else if 65 ≤ c ∧ c ≤ 70 then some (c - 55)
+  else none
+
+/-- `url.QueryUnescape` (`none` = `EscapeError`) -/
+def queryUnescape : Bytes → Option Bytes
+  | [] => some []
+  | [37] => none
+  | [37, _] => none
+  | 37 :: a :: b :: rest =>
+    match hexVal a, hexVal b, queryUnescape rest with
+    | some x, some y, some r => some ((x <<< 4 ||| y) :: r)
+    | _, _, _ => none
+  | c :: rest =>
+    match queryUnescape rest with
+    | some r => some ((if c = 43 then 32 else c) :: r)
+    | none => none
+
+/-- `if unescape { if v, err := url.QueryUnescape(val); err == nil { val = v } }` -/
+def unescapeVal (unesc : Bool) (raw : Bytes) : Bytes :=
+  if unesc then (match queryUnescape raw with | some v => v | none => raw) else raw
+
+/-- the loop `for i := range *paramsPointer { if cn.kind == akind && i == len(cn.pnames)-1 { continue }; unescape Value }` of the
+epilogue over the first `n` slots (`n` = `len(*paramsPointer)` minus the slots already done); `skip` = the index to leave alone,
+relative to the head of the list -/
+def unescFirst : Nat → Option Nat → List Bytes → List Bytes
+  | 0, _, arr => arr
+  | _ + 1, _, [] => []
+  | n + 1, none, v :: r => unescapeVal true v :: unescFirst n none r
+  | n + 1, some 0, v :: r => v :: unescFirst n none r
+  | n + 1, some (k + 1), v :: r => unescapeVal true v :: unescFirst n (some k) r
+
+/-- the index the epilogue skips: `cn.kind == akind && i == len(cn.pnames)-1` (never true for an empty `pnames`) -/
+def skipIdx (cn : Node) : Option Nat :=
+  if cn.kind = .akind ∧ cn.pnames.length ≥ 1 then some (cn.pnames.length - 1) else none
+
+/-- the epilogue `if cn != nil { res.fullPath = cn.ppath; for i, name := range cn.pnames { … };
+if unescape && res.handlers != nil { … } }` (since 59ce9b1 the values are unescaped HERE, once the route is found) -/
+def post (unesc : Bool) (st : St) (h : Option Nat) : Out :=
   match st.stack with
   | [] => .value h [] (zipKeys [] (st.arr.take st.plen)) st.tsr st.arr st.plen
   | cn :: _ =>
     if cn.pnames.length > st.plen then .panic .keyIndex
-    else .value h cn.ppath (zipKeys cn.pnames (st.arr.take st.plen)) st.tsr st.arr st.plen
+    else
+      let arr' := if unesc && h.isSome then unescFirst st.plen (skipIdx cn) st.arr else st.arr
+      .value h cn.ppath (zipKeys cn.pnames (arr'.take st.plen)) st.tsr arr' st.plen
 
 /-- `backtrackToNextNodeKind(fromKind)`; `fromStatic` = `fromKind == skind`.  Result: the new
 variables, `nextNodeKind`, `valid`. -/
@@ -108,16 +149,17 @@ def backtrack (path : Bytes) (fromStatic : Bool) (st : St) : Except ISite (St ×
                           pi := st.pi - 1, plen := st.pi - 1 }, nk, valid)
 
 /-- the `if !ok … else if nk == pkind { goto Param } else if nk == akind { goto Any } else { break }`
-after a call of `backtrackToNextNodeKind` (the static block has no `goto Any`) -/
+after a call of `backtrackToNextNodeKind` (the static block has no `goto Any`); every exit here has
+`res.handlers == nil`, so the epilogue does not unescape (`post false`) -/
 def afterBack (fromStatic : Bool) (r : Except ISite (St × Kind × Bool)) : Step :=
   match r with
   | .error s => .done (.panic s)
   | .ok (st', nk, valid) =>
-    if !valid then .done (post st' none)
+    if !valid then .done (post false st' none)
     else match nk with
       | .pkind => .next .param st'
-      | .akind => if fromStatic then .done (post st' none) else .next .any st'
-      | .skind => .done (post st' none)
+      | .akind => if fromStatic then .done (post false st' none) else .next .any st'
+      | .skind => .done (post false st' none)
 
 /-- `if cn.kind == skind { … }` -/
 def stepTop (path : Bytes) (st : St) : Step :=
@@ -135,13 +177,13 @@ def stepTop (path : Bytes) (st : St) : Step :=
 
 /-- `if search == nilString && len(cn.handlers) != 0 {…}`, the "Static node" block and the tsr test
 in front of `Param:` -/
-def stepBody (st : St) : Step :=
+def stepBody (unesc : Bool) (st : St) : Step :=
   match st.stack with
   | [] => .done (.panic .nilNode)
   | cn :: rest =>
     match st.search with
     | [] =>
-      if cn.handlers.isSome then .done (post st cn.handlers)
+      if cn.handlers.isSome then .done (post unesc st cn.handlers)
       else .next .param { st with tsr := st.tsr || tsrChild cn }
     | c :: s' =>
       match findChild cn.children c with
@@ -149,32 +191,8 @@ def stepBody (st : St) : Step :=
         .next .top { st with stack := child :: cn :: rest, tsr := st.tsr || (s'.isEmpty && c == 47 && cn.handlers.isSome) }
       | none => .next .param { st with tsr := st.tsr || (s'.isEmpty && c == 47 && cn.handlers.isSome) }
 
-def hexVal (c : UInt8) : Option UInt8 :=
-  if 48 ≤ c ∧ c ≤ 57 then some (c - 48)
-  else if 97 ≤ c ∧ c ≤ 102 then some (c - 87)
-  else if 65 ≤ c ∧ c ≤ 70 then some (c - 55)
-  else none
-
-/-- `url.QueryUnescape` (`none` = `EscapeError`) -/
-def queryUnescape : Bytes → Option Bytes
-  | [] => some []
-  | [37] => none
-  | [37, _] => none
-  | 37 :: a :: b :: rest =>
-    match hexVal a, hexVal b, queryUnescape rest with
-    | some x, some y, some r => some ((x <<< 4 ||| y) :: r)
-    | _, _, _ => none
-  | c :: rest =>
-    match queryUnescape rest with
-    | some r => some ((if c = 43 then 32 else c) :: r)
-    | none => none
-
-/-- `val := search[:i]; if unescape { if v, err := url.QueryUnescape(val); err == nil { val = v } }` -/
-def unescapeVal (unesc : Bool) (raw : Bytes) : Bytes :=
-  if unesc then (match queryUnescape raw with | some v => v | none => raw) else raw
-
-/-- the `Param:` block -/
-def stepParam (unesc : Bool) (st : St) : Step :=
+/-- the `Param:` block (the RAW text is stored: `backtrackToNextNodeKind` restores `searchIndex` by `len(Value)`) -/
+def stepParam (st : St) : Step :=
   match st.stack with
   | [] => .done (.panic .nilNode)
   | cn :: rest =>
@@ -184,7 +202,7 @@ def stepParam (unesc : Bool) (st : St) : Step :=
       else
         .next .top { stack := child :: cn :: rest, search := segRest st.search,
                      si := st.si + (segValue st.search).length,
-                     arr := st.arr.set st.pi (unescapeVal unesc (segValue st.search)),
+                     arr := st.arr.set st.pi (segValue st.search),
                      pi := st.pi + 1, plen := st.pi + 1,
                      tsr := st.tsr || ((segRest st.search).isEmpty && tsrChild child) }
     | _, _ => .next .any st
@@ -199,15 +217,17 @@ def stepAny (path : Bytes) (unesc : Bool) (st : St) : Step :=
       if st.pi + 1 > st.arr.length then .done (.panic .paramsCap)
       else if child.pnames.length = 0 || child.pnames.length - 1 ≥ st.pi + 1 then .done (.panic .anyIndex)
       else
-        .done (post { stack := child :: cn :: rest, search := [], si := st.si + st.search.length,
-                      arr := st.arr.set (child.pnames.length - 1) (unescapeVal unesc st.search),
-                      pi := st.pi + 1, plen := st.pi + 1, tsr := st.tsr } child.handlers)
+        .done (post unesc
+          { stack := child :: cn :: rest, search := [], si := st.si + st.search.length,
+            arr := st.arr.set (child.pnames.length - 1) (unescapeVal unesc st.search),
+            pi := st.pi + 1, plen := st.pi + 1, tsr := st.tsr }
+          child.handlers)
     | none => afterBack false (backtrack path false st)
 
 def step (path : Bytes) (unesc : Bool) : Pc → St → Step
   | .top, st => stepTop path st
-  | .body, st => stepBody st
-  | .param, st => stepParam unesc st
+  | .body, st => stepBody unesc st
+  | .param, st => stepParam st
   | .any, st => stepAny path unesc st
 
 /-- the `for { … }` of `find`; `none` = the fuel ran out -/
